@@ -425,6 +425,79 @@ func leavesFunc(b *ssa.BasicBlock) bool {
 	return false
 }
 
+// isReadPacketID: v is the first result of RCONConn.ReadPacket, directly or through a field of a
+// local struct that is written once in g, with that result.
+func isReadPacketID(v ssa.Value, g *ssa.Function, depth int) bool {
+	if ex, isEx := v.(*ssa.Extract); isEx && ex.Index == 0 {
+		if cl, isCl := ex.Tuple.(*ssa.Call); isCl && strings.HasSuffix(calleeName(cl.Common()), "net.(RCONConn).ReadPacket") {
+			return true
+		}
+	}
+	if depth > 1 {
+		return false
+	}
+	vals, ok := localFieldStores(v)
+	if !ok || len(vals) != 1 {
+		return false
+	}
+	return isReadPacketID(vals[0], g, depth+1)
+}
+
+// localFieldStores: v loads a field of a local struct that is only written field by field (never
+// as a whole, never through a pointer that leaves the function); the values stored into that field.
+func localFieldStores(v ssa.Value) ([]ssa.Value, bool) {
+	ld, ok := v.(*ssa.UnOp)
+	if !ok || ld.Op != token.MUL {
+		return nil, false
+	}
+	fa, ok := ld.X.(*ssa.FieldAddr)
+	if !ok {
+		return nil, false
+	}
+	al, ok := fa.X.(*ssa.Alloc)
+	if !ok || al.Referrers() == nil {
+		return nil, false
+	}
+	for _, r := range *al.Referrers() {
+		if _, isFA := r.(*ssa.FieldAddr); isFA {
+			continue
+		}
+		if u, isLd := r.(*ssa.UnOp); isLd && u.Op == token.MUL {
+			continue
+		}
+		if _, isDbg := r.(*ssa.DebugRef); isDbg {
+			continue
+		}
+		// "return req, err" with a named result copies the local onto itself
+		if w, isSt := r.(*ssa.Store); isSt && w.Addr == al {
+			if l, isLd := w.Val.(*ssa.UnOp); isLd && l.Op == token.MUL && l.X == al {
+				continue
+			}
+		}
+		return nil, false
+	}
+	var vals []ssa.Value
+	for _, r := range *al.Referrers() {
+		f2, isFA := r.(*ssa.FieldAddr)
+		if !isFA || f2.Field != fa.Field {
+			continue
+		}
+		for _, u := range *f2.Referrers() {
+			switch u := u.(type) {
+			case *ssa.Store:
+				if u.Addr != f2 {
+					return nil, false
+				}
+				vals = append(vals, u.Val)
+			case *ssa.UnOp, *ssa.DebugRef:
+			default:
+				return nil, false
+			}
+		}
+	}
+	return vals, len(vals) > 0
+}
+
 // RCONReqID: AcceptLogin and AcceptCmd record the id of the packet they just
 // read; RespCmd and Cmd send under the recorded id.
 func (c *Ctx) RCONReqID() []core.Ob {
@@ -454,10 +527,8 @@ func (c *Ctx) RCONReqID() []core.Ob {
 					if p, isF := fieldPathFromRecv(st.Addr, g.Params[0]); !isF || p != "ReqID" {
 						continue
 					}
-					if ex, isEx := st.Val.(*ssa.Extract); isEx && ex.Index == 0 {
-						if cl, isCl := ex.Tuple.(*ssa.Call); isCl && strings.HasSuffix(calleeName(cl.Common()), "net.(RCONConn).ReadPacket") {
-							ok = true
-						}
+					if isReadPacketID(st.Val, g, 0) {
+						ok = true
 					}
 				}
 			}
